@@ -265,7 +265,7 @@ func New(rules Rules) (*StatefulDefinition, error) {
 			}
 			compiled[key] = append(compiled[key], compiledRule{
 				Rule:   rule,
-				ignore: len(rule.Name) > 0 && unicode.IsLower(rune(rule.Name[0])),
+				ignore: len(rule.Name) > 0 && unicode.IsLower([]rune(rule.Name)[0]),
 				RE:     re,
 			})
 		}
